@@ -1802,14 +1802,33 @@ def replay(env, res, case):
         owners.install()
         try:
             R = StmtRunner(owners)
+            R.run(case['texts'], case['datas'], case['styles'], [])        # warm first-use paths, as in the original run
             f, s = R.run(case['texts'], case['datas'], case['styles'], expand_blocks(case['blocks']))
+            tries = 1
+            if f is None or f['kind'] != 'oracle':
+                # The sequence of line events is not bit-identical across processes (sets of definitions iterate in
+                # address order), so the recorded schedule may drift: search around it - same statements, documents
+                # and styles, seeded bursty schedules - until the failure shows again
+                rr = common.make_rng(env['seed'], 'C18-replay')
+                k = len(case['texts'])
+                t_end = time.time() + 45
+                while time.time() < t_end and tries < 600 and (f is None or f['kind'] != 'oracle'):
+                    tries += 1
+                    burst = rr.choice([[1, 1, 2, 3], [1, 2, 3, 5, 8, 20], [5, 20, 50, 200], [1, 1, 2, 3, 5, 8, 20, 50, 200]])
+                    blocks = [[rr.randrange(k), rr.choice(burst)] for _ in range(1500)]
+                    g, s = R.run(case['texts'], case['datas'], case['styles'], expand_blocks(blocks))
+                    if g is not None and (g['kind'] == 'oracle' or f is None):
+                        f = g
+                        f['case'] = dict(case, blocks=to_blocks(s.trace))
         finally:
             owners.uninstall()
             undo()
-        res.case(('replay',), True)
+        res.case(('replay', tries), True)
         if f is not None:
-            f['case'] = case
-            res.fail(f['kind'], f['key'], f['what'][:1500], f['case'])
+            f.setdefault('case', case)
+            if 'blocks' not in f['case']:
+                f['case'] = case
+            res.fail(f['kind'], f['key'], f['what'][:1500].replace('under schedule', 'under line-granularity schedule'), f['case'])
     elif kind == 'eval':
         un1, un2 = install_call_point(), install_eval_points()
         try:
